@@ -330,24 +330,163 @@ func (fg *FnGen) evalC(e CExpr, env *CEnv) *Val {
 	case *CCall:
 		return fg.evalCall(x, env)
 	case *CQuant:
-		bv := "q_" + x.Var
-		fg.nfresh++
-		bv = fmt.Sprintf("%s!%d", bv, fg.nfresh)
-		b := Term{sym(bv), SInt}
-		inner := env.with(x.Var, &Val{T: tInt, L: []Term{b}})
-		body := fg.evalBool(x.Body, inner)
-		var rng Term = TTrue
-		if x.Lo != nil {
-			lo := fg.evalC(x.Lo, env).one()
-			hi := fg.evalC(x.Hi, env).one()
-			rng = And(Le(lo, b), Lt(b, hi))
+		vars, rng, body := fg.quantParts(x, env)
+		var bs []string
+		for _, v := range vars {
+			bs = append(bs, "("+v+" Int)")
 		}
 		if x.Forall {
-			return &Val{T: tBool, L: []Term{{fmt.Sprintf("(forall ((%s Int)) %s)", sym(bv), Implies(rng, body).S), SBool}}}
+			return &Val{T: tBool, L: []Term{{fmt.Sprintf("(forall (%s) %s)", strings.Join(bs, " "), Implies(rng, body).S), SBool}}}
 		}
-		return &Val{T: tBool, L: []Term{{fmt.Sprintf("(exists ((%s Int)) %s)", sym(bv), And(rng, body).S), SBool}}}
+		return &Val{T: tBool, L: []Term{{fmt.Sprintf("(exists (%s) %s)", strings.Join(bs, " "), And(rng, body).S), SBool}}}
 	}
 	panic(unsupported("contract expression " + e.cstr()))
+}
+
+// quantParts translates a quantifier and flattens directly nested quantifiers of the same kind into one binder
+// list (forall a. ra => forall b. rb => P  ==  forall a b. ra && rb => P).
+//
+// Bound variables that index a slice (s[k]) are translated by the change of variable k = J - off(s), J being the
+// absolute position in the backing array: element terms then read (select (select E arr) J), a pattern the
+// solvers' E-matching can use, instead of (select ... (+ off k)) which needs arithmetic to match. The change of
+// variable is a bijection, so the meaning is unchanged; Add() folds off + (J - off) back to J.
+func (fg *FnGen) quantParts(x *CQuant, env *CEnv) ([]string, Term, Term) {
+	fg.nfresh++
+	bv := sym(fmt.Sprintf("q_%s!%d", x.Var, fg.nfresh))
+	b := Term{bv, SInt}
+	kterm := b
+	if x.Lo != nil {
+		for _, carrier := range quantCarriers(x.Body, x.Var) {
+			if sv := fg.tryEvalC(carrier, env); sv != nil && sv.Loc == nil && len(sv.L) == 4 {
+				if _, ok := types.Unalias(sv.T).Underlying().(*types.Slice); ok {
+					kterm = Sub(b, sv.L[1])
+					break
+				}
+			}
+		}
+	}
+	inner := env.with(x.Var, &Val{T: tInt, L: []Term{kterm}})
+	var rng Term = TTrue
+	if x.Lo != nil {
+		lo := fg.evalC(x.Lo, env).one()
+		hi := fg.evalC(x.Hi, env).one()
+		rng = And(Le(lo, kterm), Lt(kterm, hi))
+	}
+	if q, ok := x.Body.(*CQuant); ok && q.Forall == x.Forall {
+		vs, r2, body := fg.quantParts(q, inner)
+		return append([]string{bv}, vs...), And(rng, r2), body
+	}
+	return []string{bv}, rng, fg.evalBool(x.Body, inner)
+}
+
+// tryEvalC evaluates e, returning nil instead of failing when it is outside the supported subset here.
+func (fg *FnGen) tryEvalC(e CExpr, env *CEnv) (v *Val) {
+	defer func() {
+		if r := recover(); r != nil {
+			if _, ok := r.(unsupported); ok {
+				v = nil
+				return
+			}
+			panic(r)
+		}
+	}()
+	return fg.evalC(e, env)
+}
+
+// quantCarriers finds the expressions s such that the quantified body contains s[v] with v the bound variable, s not
+// mentioning v, any variable bound by a nested quantifier, or old().
+func quantCarriers(body CExpr, v string) []CExpr {
+	var found []CExpr
+	seen := map[string]bool{}
+	var walk func(e CExpr, bound map[string]bool)
+	mentions := func(e CExpr, names map[string]bool) bool {
+		hit := false
+		var rec func(e CExpr)
+		rec = func(e CExpr) {
+			if e == nil || hit {
+				return
+			}
+			switch x := e.(type) {
+			case *CIdent:
+				if names[x.Name] {
+					hit = true
+				}
+			case *CBin:
+				rec(x.L)
+				rec(x.R)
+			case *CUn:
+				rec(x.X)
+			case *CSel:
+				rec(x.X)
+			case *CIdx:
+				rec(x.X)
+				rec(x.I)
+			case *CSlice:
+				rec(x.X)
+				rec(x.Lo)
+				rec(x.Hi)
+			case *CCall:
+				rec(x.Fn)
+				for _, a := range x.Args {
+					rec(a)
+				}
+			case *CQuant:
+				hit = true // keep it simple: no quantifiers inside a carrier
+			case *COld:
+				hit = true
+			}
+		}
+		rec(e)
+		return hit
+	}
+	walk = func(e CExpr, bound map[string]bool) {
+		if e == nil {
+			return
+		}
+		switch x := e.(type) {
+		case *CBin:
+			walk(x.L, bound)
+			walk(x.R, bound)
+		case *CUn:
+			walk(x.X, bound)
+		case *CSel:
+			walk(x.X, bound)
+		case *CIdx:
+			if id, ok := x.I.(*CIdent); ok && id.Name == v && !bound[v] {
+				names := map[string]bool{v: true}
+				for k := range bound {
+					names[k] = true
+				}
+				if !mentions(x.X, names) && !seen[x.X.cstr()] {
+					seen[x.X.cstr()] = true
+					found = append(found, x.X)
+				}
+			}
+			walk(x.X, bound)
+			walk(x.I, bound)
+		case *CSlice:
+			walk(x.X, bound)
+			walk(x.Lo, bound)
+			walk(x.Hi, bound)
+		case *CCall:
+			for _, a := range x.Args {
+				walk(a, bound)
+			}
+		case *CQuant:
+			nb := map[string]bool{}
+			for k := range bound {
+				nb[k] = true
+			}
+			nb[x.Var] = true
+			walk(x.Lo, bound)
+			walk(x.Hi, bound)
+			walk(x.Body, nb)
+		case *COld:
+			// the carrier must be evaluated in the state of the quantifier itself
+		}
+	}
+	walk(body, map[string]bool{})
+	return found
 }
 
 func (fg *FnGen) evalIdent(name string, env *CEnv) *Val {
@@ -758,9 +897,7 @@ func (fg *FnGen) evalCall(x *CCall, env *CEnv) *Val {
 	case "len":
 		v := fg.evalC(x.Args[0], env)
 		if mt, ok := types.Unalias(v.T).Underlying().(*types.Map); ok {
-			mc := mapComp(mt)
-			ln := fg.get(env.st, mc+"!len", ArrSort(SInt))
-			return &Val{T: tInt, L: []Term{Select(ln, v.one())}}
+			return &Val{T: tInt, L: []Term{fg.mapLen(env.st, v, mt)}}
 		}
 		if len(v.L) == 4 && v.Loc == nil {
 			// well-formed slice header in any state: 0 <= len <= cap <= 2^50
